@@ -31,7 +31,8 @@ type Settings struct {
 	Password string `json:"password"`
 	Cors     bool   `json:"cors"`
 	Origin   string `json:"cors_origin"`
-	Mode     string `json:"mode"` // all | writer | reader | "" (SYSTEM_SETTINGS.Mode)
+	Mode     string `json:"mode"`                 // all | writer | reader | "" (SYSTEM_SETTINGS.Mode)
+	Prefix   string `json:"api_prefix,omitempty"` // HTTP_SETTINGS.ApiPrefix (not read by the pinned main.go)
 }
 
 // repoDir is the tree under test (VERIF_REPO; the harness is compiled against the same tree).
@@ -60,6 +61,7 @@ func newConfig(s Settings) *clconfig.ClokiConfig {
 		cfg.Setting.HTTP_SETTINGS.Cors.Enable = true
 		cfg.Setting.HTTP_SETTINGS.Cors.Origin = s.Origin
 	}
+	cfg.Setting.HTTP_SETTINGS.ApiPrefix = s.Prefix
 	cfg.Setting.HTTP_SETTINGS.Host = "0.0.0.0"
 	cfg.Setting.HTTP_SETTINGS.Port = 3100
 	cfg.Setting.SYSTEM_SETTINGS.Mode = s.Mode
